@@ -94,7 +94,8 @@ def c01_strategy(ctx):
                                   "sleeps": st.lists(st.sampled_from([0, 0, 1, 3, 10]), min_size=1, max_size=5),
                                   "gen_input": st.booleans()})
     base = _configs(["sequential", "threading", "threading", "loky", "loky", "multiprocessing"], ("list", "list", "generator"))
-    return st.tuples(base, st.lists(call, min_size=1, max_size=2)).map(lambda t: {**t[0], "calls": t[1]}).filter(
+    hold = st.one_of(st.none(), st.integers(0, 6))
+    return st.tuples(base, st.lists(call, min_size=1, max_size=2), hold).map(lambda t: {**t[0], "calls": t[1], "hold": t[2]}).filter(
         lambda s: not (s["backend"] == "multiprocessing" and s["return_as"] != "list"))
 
 
@@ -132,7 +133,50 @@ def _run_c01(spec):
     if spec["managed"]:
         par.__enter__()
     try:
+        first_ci = 0
+        if spec.get("hold") is not None and spec["return_as"] == "generator" and len(spec["calls"]) >= 2 and spec["calls"][0]["n"] >= 2:
+            # the first generator is only partly consumed; once all its tasks are done and one more result has been pulled the
+            # object accepts a new call: both generators must still deliver exactly their own values, in order
+            first_ci = 2
+            c1, c2 = spec["calls"][0], spec["calls"][1]
+            if os.path.exists(logpath):
+                os.unlink(logpath)
+            where = _where(spec, 0, c1) + " [first generator held after %d results while the next call runs]" % spec["hold"]
+            import time as _t
+
+            def interleaved():
+                g1 = par(_items(c1, 0, logpath, c1.get("gen_input")))
+                k = min(spec["hold"], c1["n"] - 2)
+                got1 = [next(g1) for _ in range(k)]
+                t_end = _t.time() + 60
+                while len(_exec_counts(logpath)) < c1["n"] and _t.time() < t_end:
+                    _t.sleep(0.005)
+                got1.append(next(g1))
+                try:
+                    g2 = par(_items(c2, 1000, logpath, c2.get("gen_input")))
+                    got2 = list(g2)
+                    got1.extend(g1)
+                except RuntimeError:
+                    # the first run is still considered unfinished: finish it, then call again
+                    got1.extend(g1)
+                    got2 = list(par(_items(c2, 1000, logpath, c2.get("gen_input"))))
+                return got1, got2
+            kind, val = _guard(interleaved, where)
+            if kind == "raise":
+                raise Violation("%s raised %s: %s although no task fails" % (where, type(val).__name__, str(val)[:200]), signature=["real-raises"])
+            for got, cc, b in ((val[0], c1, 0), (val[1], c2, 1000)):
+                want = [("r", b + i, (b + i) % 3) for i in range(cc["n"])]
+                if got != want:
+                    raise Violation("%s: the %s generator delivered %r, sequential loop gives %r" % (where, "first" if b == 0 else "second", got[:30], want[:30]),
+                                    signature=["real-results"])
+            counts = _exec_counts(logpath)
+            if any(c != 1 for c in counts.values()) or len(counts) != c1["n"] + c2["n"]:
+                raise Violation("%s: tasks not executed exactly once: %r" % (where, {k: v for k, v in counts.items() if v != 1} or len(counts)),
+                                signature=["real-exactly-once"])
+            nontrivial = True
         for ci, call in enumerate(spec["calls"]):
+            if ci < first_ci:
+                continue
             if os.path.exists(logpath):
                 os.unlink(logpath)
             base = 1000 * ci
